@@ -2,6 +2,7 @@
    Property theorems only; every proof is `exact <lemma>`; assumptions printed below. *)
 From Coq Require Import List NArith.
 From FP Require Import Model.Base Model.ItsWords Spec.WordLayout Proofs.Bits Proofs.C11_proofs.
+From FP Require Gen.Facts.
 Import ListNotations.
 Open Scope N_scope.
 
@@ -65,6 +66,36 @@ Proof.
   repeat split; reflexivity.
 Qed.
 
+(* the integer literals (shift amounts, masks, byte indices) of the word accessors the model of the sanity predicates is written against --
+   Ihw::reserved / active_lanes, the Tdh, Tdt, Ddw0 and Cdw field accessors, the data-word id -> lane / connector-input maps and is_lane_active --
+   re-read from fastpasta/src/words/its/** on every run, in source order: an accessor with another mask or shift no longer type-checks here
+   (the field semantics themselves are the C11_*_exact theorems over Spec/WordLayout.v) *)
+Theorem C11_accessor_literals_as_modelled :
+  Gen.Facts.pin_ihw_reserved = [28; 15; 255; 36; 4] /\
+  Gen.Facts.pin_ihw_active_lanes = [268435455] /\
+  Gen.Facts.pin_tdh_reserved0 = [255] /\
+  Gen.Facts.pin_tdh_reserved1 = [61440] /\
+  Gen.Facts.pin_tdh_trigger_bc = [4095] /\
+  Gen.Facts.pin_tdh_reserved2 = [32768] /\
+  Gen.Facts.pin_tdh_continuation = [16384; 14] /\
+  Gen.Facts.pin_tdh_no_data = [8192; 13] /\
+  Gen.Facts.pin_tdh_internal_trigger = [4096; 12] /\
+  Gen.Facts.pin_tdh_trigger_type = [4095] /\
+  Gen.Facts.pin_tdt_reserved0 = [4] /\
+  Gen.Facts.pin_tdt_reserved1 = [4] /\
+  Gen.Facts.pin_tdt_reserved2 = [31] /\
+  Gen.Facts.pin_tdt_packet_done = [1; 1] /\
+  Gen.Facts.pin_ddw0_index = [240; 4] /\
+  Gen.Facts.pin_ddw0_reserved0_1 = [5] /\
+  Gen.Facts.pin_ddw0_is_reserved_0 = [0; 18374686479671623680; 0] /\
+  Gen.Facts.pin_cdw_calibration_word_index = [16; 48] /\
+  Gen.Facts.pin_cdw_calibration_user_fields = [281474976710655] /\
+  Gen.Facts.pin_dw_ob_data_word_id_to_lane = [7; 14; 21] /\
+  Gen.Facts.pin_dw_ob_data_word_id_to_input_number_connector = [7] /\
+  Gen.Facts.pin_dw_ib_data_word_id_to_lane = [31] /\
+  Gen.Facts.pin_util_is_lane_active = [1; 0].
+Proof. repeat split; reflexivity. Qed.
+
 Print Assumptions C11_ihw.
 Print Assumptions C11_tdh.
 Print Assumptions C11_tdt.
@@ -77,3 +108,4 @@ Print Assumptions C11_data_reported.
 Print Assumptions C11_data_codes.
 Print Assumptions C11_data_e70.
 Print Assumptions C11_data_sanity_mode.
+Print Assumptions C11_accessor_literals_as_modelled.
